@@ -20,19 +20,23 @@
 
    NOT proved here (partial):
      * "Pandas and Polars agree": polars_model.py is not modelled; covered by the differential oracle of the harness only.
-     * composition: it is proved that a map with the first map's input side and an output side with the second map's layout
-       (composite_ok) IS sequential application (the C17_compose_sound_partial theorems, for maps over the same records:
-       same_records).  That compose() returns such a map is shown on instances (Examples below, by computation) and
-       evaluated inside Coq on EVERY composite the harness samples (case kind KComposeOk), not proved for all maps.
-       Two refutations keep the statement honest:
-         - C17_compose_refuted_rows_in / _rows_out: with value_suffix " value" (the code before /repo 031522a) composites that
-           take or return row records were wrong (fixed: C17 031522a; the check reads the suffix from the source, so the
-           defect is reported again if it returns);
-         - C17_compose_refuted_lossy: a strict blocks -> blocks map may drop value names; its composite with a map to rows
-           keeps them (known finding C17-compose-keeps-values-a-lossy-map-drops) -- hence the guard same_records. *)
+     * composition.  For the code since /repo 031522a (compose() passes value_suffix "") it is PROVED, for each shape of
+       composite, that compose() returns a map and that this map is sequential application:
+       C17_compose_sound_blocks_rows, C17_compose_sound_rows_blocks_partial, C17_compose_sound_blocks_blocks_partial.
+       Guards: same_records (the maps work on the same record keys and value names -- without it the statement is false,
+       C17_compose_refuted_lossy, known finding C17-compose-keeps-values-a-lossy-map-drops); and, for the two _partial ones,
+       the outer specifications list their record keys in the same ORDER (rs_keys A = rs_keys C; missing: other orders --
+       there the composite's output specification lists the keys in the first map's order, which the proof's layout
+       comparison spec_simb does not cover; the harness samples only equal orders).
+       Independently of the suffix and of the key order: a map with the first map's input side and an output side with the
+       second map's layout (composite_ok) IS sequential application (the C17_compose_sound_partial theorems); the harness
+       evaluates composite_ok inside Coq on every composite it samples (case kind KComposeOk).
+       C17_compose_refuted_rows_in / _rows_out: with value_suffix " value" (the code before 031522a) composites that take or
+       return row records were wrong (fixed: C17 031522a; the check reads the suffix from the source, so the defect is
+       reported again if it returns). *)
 From Coq Require Import List Bool ZArith QArith String Permutation.
 Import ListNotations.
-From DA Require Import Base.PyRT Base.Val Model.CData Proofs.CDataP4 Proofs.CDataP5 Proofs.CDataP6 Proofs.CDataP7 Proofs.CDataEx.
+From DA Require Import Base.PyRT Base.Val Model.CData Proofs.CDataP4 Proofs.CDataP5 Proofs.CDataP6 Proofs.CDataP7 Proofs.CDataP8 Proofs.CDataEx.
 
 (* rows -> blocks -> rows returns the original table (its row columns) *)
 Theorem C17_inverse_roundtrip_rows : forall S t, strict_spec S = true -> conforming_rows S t = true ->
@@ -69,7 +73,7 @@ Proof. exact recordmap_inverse_blocks_to_blocks. Qed.
 Print Assumptions C17_recordmap_inverse_blocks_to_blocks.
 
 (* composition: self.compose(other) applies other first.  (compose sfx self other; a >> b is b.compose(a).)
-   PARTIAL: under composite_ok (see the header) *)
+   For ANY value_suffix and any order of the record keys: a composite_ok map is sequential application (see the header) *)
 Theorem C17_compose_sound_partial_blocks_blocks : forall sfx A B C t c,
   strict_spec A = true -> strict_spec B = true -> strict_spec C = true ->
   same_records A B = true -> same_records B C = true -> complete_blocks A t = true ->
@@ -97,6 +101,33 @@ Theorem C17_compose_sound_partial_blocks_rows : forall sfx A B t c,
     transform c t = Ok zc /\ Permutation (cols zc) (cols z) /\ tbl_eqv z (select_cols (row_columns B) zc).
 Proof. exact compose_sound_blocks_rows. Qed.
 Print Assumptions C17_compose_sound_partial_blocks_rows.
+
+(* compose() since /repo 031522a (value_suffix ""): it returns a map, and the map is sequential application *)
+Theorem C17_compose_sound_blocks_rows : forall A B t,
+  strict_spec A = true -> strict_spec B = true -> same_records A B = true -> complete_blocks A t = true ->
+  exists c y z zc, compose "" (mkmap (Some B) None true) (mkmap (Some A) (Some B) true) = CMap c /\
+    transform (mkmap (Some A) (Some B) true) t = Ok y /\ transform (mkmap (Some B) None true) y = Ok z /\
+    transform c t = Ok zc /\ Permutation (cols zc) (cols z) /\ tbl_eqv z (select_cols (row_columns B) zc).
+Proof. exact compose_sound_blocks_rows_full. Qed.
+Print Assumptions C17_compose_sound_blocks_rows.
+
+Theorem C17_compose_sound_rows_blocks_partial : forall B C t,
+  strict_spec B = true -> strict_spec C = true -> same_records B C = true -> rs_keys B = rs_keys C ->
+  conforming_rows B t = true ->
+  exists c y z zc, compose "" (mkmap (Some B) (Some C) true) (mkmap None (Some B) true) = CMap c /\
+    transform (mkmap None (Some B) true) t = Ok y /\ transform (mkmap (Some B) (Some C) true) y = Ok z /\
+    transform c t = Ok zc /\ tbl_eqv zc z.
+Proof. exact compose_sound_rows_blocks_full. Qed.
+Print Assumptions C17_compose_sound_rows_blocks_partial.
+
+Theorem C17_compose_sound_blocks_blocks_partial : forall A B C t,
+  strict_spec A = true -> strict_spec B = true -> strict_spec C = true ->
+  same_records A B = true -> same_records B C = true -> rs_keys A = rs_keys C -> complete_blocks A t = true ->
+  exists c y z zc, compose "" (mkmap (Some B) (Some C) true) (mkmap (Some A) (Some B) true) = CMap c /\
+    transform (mkmap (Some A) (Some B) true) t = Ok y /\ transform (mkmap (Some B) (Some C) true) y = Ok z /\
+    transform c t = Ok zc /\ tbl_eqv zc z.
+Proof. exact compose_sound_blocks_blocks_full. Qed.
+Print Assumptions C17_compose_sound_blocks_blocks_partial.
 
 (* with value_suffix " value" (compose() before /repo 031522a) the statement is false: a composite that takes row records
    rejects the table the sequence transforms ... *)
@@ -146,8 +177,9 @@ Print Assumptions C17_table_eqvb_decides_tbl_eqv.
    an extra column, shuffled rows and columns; layouts with 1 and 2 control keys, string and numeric keys *)
 Example C17_ex_strict_specs : strict_spec ex_A = true /\ strict_spec ex_B = true /\ strict_spec ex_C = true.
 Proof. vm_compute. repeat split; reflexivity. Qed.
-Example C17_ex_same_records : same_records ex_A ex_B = true /\ same_records ex_B ex_C = true.
-Proof. vm_compute. split; reflexivity. Qed.
+Example C17_ex_same_records : same_records ex_A ex_B = true /\ same_records ex_B ex_C = true /\
+  rs_keys ex_A = rs_keys ex_C /\ rs_keys ex_B = rs_keys ex_C.
+Proof. vm_compute. repeat split; reflexivity. Qed.
 Example C17_ex_conforming_rows : conforming_rows ex_A ex_rows = true /\ conforming_rows ex_B ex_rows = true.
 Proof. vm_compute. split; reflexivity. Qed.
 Example C17_ex_complete_blocks : complete_blocks ex_A ex_blocks = true.
